@@ -280,3 +280,55 @@ def remaining_time(P, term, allow_min=True):
     if not deadlines:
         ok = False
     return ok, deadlines, clamped, '; '.join(det)
+
+
+def guarded_by_bool(F, P, f, bb, pred, value):
+    """Is block bb dominated by the `value` (True/False) edge of a switch on a bool whose provenance
+    satisfies pred(term)?  Handles `Not`.  Returns list of guarding switch blocks."""
+    out = []
+    for i, b in enumerate(f.blocks):
+        if b['cleanup'] or b['term']['k'] != 'switch':
+            continue
+        d = b['term']['discr']
+        if d['k'] not in ('copy', 'move'):
+            continue
+        if f.local_ty(d['pl']['l']) != 'bool' and not d['pl']['p']:
+            continue
+        t = P.operand(f, d, at=i)
+        want = value
+        n = 0
+        while t[0] == 'un' and t[1] == 'Not' and n < 4:
+            t = t[2]
+            want = not want
+            n += 1
+        if not pred(t):
+            continue
+        targets = dict((v, x) for v, x in b['term']['targets'])
+        # bool switch: [[0, bbFalse]] otherwise bbTrue
+        false_b = targets.get(0)
+        true_b = b['term']['otherwise'] if 1 not in targets else targets[1]
+        if false_b is None:
+            false_b = b['term']['otherwise']
+        tb = true_b if want else false_b
+        ob = false_b if want else true_b
+        if tb == ob:
+            continue
+        if cfg.dominates(f, tb, bb) and not (tb == bb and False):
+            out.append(i)
+    return out
+
+
+def sends_cancel_id(F, P, f, bb, t):
+    """If the call t (in f at bb) ends up sending an id on an mpsc::UnboundedSender<u64> (directly or via
+    a local helper), returns the list of id terms sent; else []."""
+    out = []
+    if callee_is(t, 'mpsc::UnboundedSender::send'):
+        return [P.operand(f, t['args'][1], at=bb)]
+    c = F.callee_fn(t)
+    if c is not None:
+        for b2, t2 in c.calls():
+            if callee_is(t2, 'mpsc::UnboundedSender::send'):
+                term = P.operand(c, t2['args'][1], at=b2)
+                args = [P.operand(f, a, at=bb) for a in t['args']]
+                out.append(P.subst(term, c.id, args))
+    return out
